@@ -8,7 +8,8 @@ EXPLANATION = ("C18: (R1) the comment scan: the two 21-byte prefixes, slice reac
                "literal prefix of to_data_url's format template must be among the preambles decode_data_url strips, and both "
                "sides use the standard padded base64 alphabet; (R3) data: references go to decode_data_url; (R4) the detection "
                "predicate, evaluated over all 256 key-presence combinations, is true for what each writer always writes; (R8) the reader form of the predicate passes a header-less document through the streaming stripper unchanged whatever the chunking; (R9) the consumer of the data URL is the regular decoder (accumulators, range-mapping reader: shared with C02)."
-               " (R0, R0b) the accessor table and the encoder's duplicate-skip (the data-URL round trip writes through them).")
+               " (R0, R0b) the accessor table and the encoder's duplicate-skip (the data-URL round trip writes through them)."
+               " (R9c/R9d) the VLQ reader accepts the writer's whole range and (R9e) decode_regular rejects only for the reviewed reasons, so the data URL the library writes is one it reads.")
 NOT_DECIDED = "first-match over all texts as a value-level statement (BufRead::lines is trusted); equality of the decoded map."
 
 
@@ -40,6 +41,11 @@ RULES = {
     # the consumer side of the data URL is the regular decoder: its accumulators and the range-mapping reader
     "C18.R9a": lambda ctx: __import__("rules.decoderrules", fromlist=["x"]).accumulators(ctx, "C18.R9a"),
     "C18.R9b": lambda ctx: __import__("rules.decoderrules", fromlist=["x"]).range_reader(ctx, "C18.R9b"),
+    # ... the VLQ reader must accept everything the writer emits (differences of two u32), and the decoder must not
+    # reject for a reason of its own
+    "C18.R9c": lambda ctx: __import__("rules.vlqrules", fromlist=["x"]).reader_shape(ctx, "C18.R9c"),
+    "C18.R9d": lambda ctx: __import__("rules.vlqrules", fromlist=["x"]).writer_shape(ctx, "C18.R9d"),
+    "C18.R9e": lambda ctx: __import__("rules.decoderrules", fromlist=["x"]).rejections_exact(ctx, "C18.R9e"),
 }
 
 
